@@ -962,6 +962,15 @@ def value_pool():
              (D.UnsignedLong, D.UnsignedLong(2 ** 64 - 1)), (D.Long, D.Long(-2 ** 63))]
     pool += [(D.Double, x) for x in (1.7976931348623157e308, 5e-324, 0.1 + 0.2, -2.2250738585072014e-308, 1e22, 123456789.12345679)]
     pool += [(D.Float, D.Float(x)) for x in (3.4028234663852886e38, 1.401298464324817e-45, 16777217.0, 0.30000001192092896)]
+    # every string-like XSD type the SDK offers (xs:string, xs:anyURI, xs:normalizedString, ...) crossed with the whole
+    # XML lexical stress list; values a type's constructor refuses are no members of its value space and are skipped
+    for t in D.XSD_TYPE_NAMES:
+        if isinstance(t, type) and issubclass(t, str):
+            for x in LEX + ["", "a b", " a  b ", "http://example.org/a b", "urn:x\ty", "\r\n"]:
+                try:
+                    pool.append((t, t(x)))
+                except (ValueError, TypeError):
+                    pass
     return pool
 
 
